@@ -194,6 +194,18 @@ pub fn iter_adaptors(_args: &[String]) -> String {
             }
         }
     }
+    {
+        // rewind() is a seek to the start: the bar follows
+        let pb = ProgressBar::hidden();
+        let mut w = pb.wrap_read(Cursor::new(data.clone()));
+        let mut b = [0u8; 40];
+        let _ = w.read_exact(&mut b);
+        let r = w.rewind();
+        tried += 1;
+        if r.is_err() || pb.position() != 0 {
+            return fail("C17 a seek (also through rewind) sets the position to the new offset", format!("read 40 bytes, rewind(): position {} expected 0", pb.position()));
+        }
+    }
     // ---- Write: short writes, errors, vectored
     for chunks in [vec![1usize], vec![3, 0, 7], vec![100], vec![2, usize::MAX, 4]] {
         let pb = ProgressBar::hidden();
